@@ -14,12 +14,11 @@ func ForeachLeaf(val rel.Value, path string, leafAction func(val rel.Value, path
 
 	switch v := val.(type) {
 	case rel.Array:
-		for i, item := range v.Values() {
-			if item == nil {
-				// A hole of a sparse array is not a member of the array, hence not a leaf.
-				continue
-			}
-			ForeachLeaf(item, fmt.Sprintf("%s(%d)", path, i), leafAction)
+		// Enumerate the members (@: index, @item: item): a hole of a sparse array is not a member of the
+		// array, hence not a leaf, and the index includes the array's offset.
+		for e := v.Enumerator(); e.MoveNext(); {
+			member := e.Current().(rel.Tuple)
+			ForeachLeaf(member.MustGet(rel.ArrayItemAttr), fmt.Sprintf("%s(%v)", path, member.MustGet("@")), leafAction)
 		}
 	case rel.Dict:
 		for _, entry := range v.OrderedEntries() {
